@@ -112,7 +112,7 @@ def _export_check(rows, version, p, b, tf, sf):
     return None
 
 
-def _independent_relion(rows, version, p, names, rng):
+def _independent_relion(rows, version, p, names, rng, variant=0):
     """an independently generated RELION particle table describing the given poses (rot/tilt/psi from scipy of R^T, origin in
     px for 3.0 and Angstrom for >= 3.1)"""
     n = len(rows)
@@ -137,15 +137,31 @@ def _independent_relion(rows, version, p, names, rng):
         d["rlnTomoParticleName"] = s if not names else [f"TS_{x:03d}/{y}" for x, y in zip(t, s)]
     d["rlnClassNumber"] = [int(r["class"]) for r in rows]
     d["rlnRandomSubset"] = [2 if y % 2 == 0 else 1 for y in s]
+    # variants of what an independent RELION file may look like: 1 = no tomogram-name column (the tomogram number has to come from the particle
+    # name), 2 = no rlnRandomSubset column, 3 = half-sets unrelated to the numbers' parity, 4 = every particle in half-set 1
+    if variant == 1 and names:
+        d.pop("rlnMicrographName" if version < 4.0 else "rlnTomoName")
+    elif variant == 2:
+        d.pop("rlnRandomSubset")
+    elif variant == 3:
+        d["rlnRandomSubset"] = [int(v) for v in rng.integers(1, 3, n)]
+    elif variant == 4:
+        d["rlnRandomSubset"] = [1] * n
     df = pd.DataFrame(d)
     cols = list(df.columns)
     rng.shuffle(cols)
     return df[cols]
 
 
-def _import_check(rows, version, p, names, rng, via_file, tmp):
+def _import_check(rows, version, p, names, rng, via_file, tmp, variant=0, per_tomo_numbers=False):
     from cryocat import cryomotl, starfileio
-    rdf = _independent_relion(rows, version, p, names, rng)
+    if per_tomo_numbers:  # RELION numbers particles per tomogram: the numbers repeat across tomograms
+        rows = [dict(r) for r in rows]
+        cnt = {}
+        for r in rows:
+            cnt[r["tomo_id"]] = cnt.get(r["tomo_id"], 0) + 1
+            r["subtomo_id"] = float(cnt[r["tomo_id"]])
+    rdf = _independent_relion(rows, version, p, names, rng, variant)
     if via_file:
         path = os.path.join(tmp, "in.star")
         spec = "data_" if version <= 3.0 else "data_particles"
@@ -176,9 +192,15 @@ def _import_check(rows, version, p, names, rng, via_file, tmp):
         return {"what": "geom3 does not hold the subtomogram number from the names"}
     sub = out["subtomo_id"].values.astype(float)
     if len(set(sub)) != len(sub):
-        return {"what": "subtomo_id not unique"}
-    if not np.array_equal(sub % 2, exp["subtomo_id"].values % 2):
-        return {"what": "half-set 1/2 does not correspond to odd/even subtomo_id"}
+        return {"what": "subtomo_id not unique", "variant": variant, "per_tomo_numbers": per_tomo_numbers}
+    if np.any(sub != np.floor(sub)) or np.any(sub < 0):
+        return {"what": "subtomo_id not a whole number"}
+    if "rlnRandomSubset" in rdf.columns and rdf["rlnRandomSubset"].nunique() == 2:
+        half = rdf["rlnRandomSubset"].values
+        if not np.array_equal(sub % 2 == 1, half == 1):
+            return {"what": "half-set 1/2 does not correspond to odd/even subtomo_id", "variant": variant, "per_tomo_numbers": per_tomo_numbers}
+    elif len(set(exp["subtomo_id"].values)) == len(exp) and not np.array_equal(sub, exp["subtomo_id"].values):
+        return {"what": "unique subtomogram numbers without half-set information were not kept", "variant": variant}
     return None
 
 
@@ -246,7 +268,7 @@ def gen_cases(seed, n_cases):
         tf, sf = [("", ""), ("tomo_$xxx.mrc", "sub/$xxx/part_$xxx_$yyyyyy.mrc"), ("TS_$xx.mrc", "TS_$xx/TS_$xx_sub_$yyyy.mrc")][fmt] if version < 4.0 else [("", ""), ("TS_$xxx", "TS_$xxx/$yyy"), ("t$xxxx", "t$xxxx/$yyyyy")][fmt]
         case = {"rows": rows, "version": version, "kind": kind, "pixel": float(rng.choice([1.0, 2.5, rng.uniform(0.5, 8)])),
                 "binning": float(rng.choice([1.0, 2.0, 4.0])), "tf": tf, "sf": sf, "via_file": bool(rng.random() < 0.5), "optics": bool(rng.random() < 0.5),
-                "names": bool(rng.random() < 0.6), "seed": int(rng.integers(1 << 30))}
+                "names": bool(rng.random() < 0.6), "seed": int(rng.integers(1 << 30)), "variant": int(rng.integers(0, 5)), "per_tomo_numbers": bool(rng.random() < 0.3)}
         yield (ci, version, kind, case["via_file"], n), case
 
 
@@ -256,5 +278,5 @@ def run_case(case):
         if case["kind"] == "export":
             return _export_check(case["rows"], case["version"], case["pixel"], case["binning"], case["tf"], case["sf"])
         if case["kind"] == "import":
-            return _import_check(case["rows"], case["version"], case["pixel"], case["names"], rng, case["via_file"], tmp)
+            return _import_check(case["rows"], case["version"], case["pixel"], case["names"], rng, case["via_file"], tmp, case.get("variant", 0), case.get("per_tomo_numbers", False))
         return _roundtrip_check(case["rows"], case["version"], case["pixel"], case["binning"], case["tf"], case["sf"], case["via_file"], case["optics"], tmp)
